@@ -232,7 +232,8 @@ func (c Case) wellFormed() error {
 		return fmt.Errorf("1..12 declarations expected")
 	}
 	seen := map[string]bool{}
-	hasFile, hasForm := false, false
+	hasForm := false
+	_ = hasForm
 	for i, d := range c.Decls {
 		key := strings.ToLower(d.Name)
 		if d.Name == "" || seen[key] {
@@ -274,7 +275,7 @@ func (c Case) wellFormed() error {
 			if d.In != "formData" {
 				return fmt.Errorf("declaration %d: file parameters live in formData", i)
 			}
-			hasFile = true
+			_ = d
 		default:
 			return fmt.Errorf("declaration %d: type %q", i, d.Type)
 		}
@@ -300,8 +301,10 @@ func (c Case) wellFormed() error {
 		if len(r.Sent) != len(c.Decls) {
 			return fmt.Errorf("request %d: %d texts for %d declarations", ri, len(r.Sent), len(c.Decls))
 		}
-		if hasFile && hasForm && !r.Multipart {
-			return fmt.Errorf("request %d: file parameters need multipart", ri)
+		for _, snt := range r.Sent {
+			if snt.File != nil && !r.Multipart {
+				return fmt.Errorf("request %d: a file needs a multipart body", ri)
+			}
 		}
 		for i, s := range r.Sent {
 			d := c.Decls[i]
